@@ -816,6 +816,16 @@ func nonNilAtEnd(list []ast.Stmt, x string) bool {
 	for _, st := range list {
 		switch s := st.(type) {
 		case *ast.AssignStmt:
+			if s.Tok == token.DEFINE {
+				// `x := ...` inside the block declares a new variable that shadows x: the outer x is untouched,
+				// and every later mention of the name in this block is about the inner one
+				for _, l := range s.Lhs {
+					if es(l) == x {
+						return false
+					}
+				}
+				continue
+			}
 			for i, l := range s.Lhs {
 				if es(l) == x {
 					assigned = true
